@@ -846,6 +846,27 @@ func (x *Exec) evalCall(c *evalCtx, call ECall) (Val, error) {
 		}
 		v, _ := unflatten(mt.Elem(), ts)
 		return v, nil
+	case "sinceLoopHead":
+		// sinceLoopHead(x): the object (or what the interface value holds) was allocated in the current loop iteration
+		if st.LoopWM.S == "" {
+			return Val{}, fmt.Errorf("sinceLoopHead outside a loop with an invariant")
+		}
+		r := a[0].T
+		if a[0].K == VSlice {
+			r = a[0].Ref
+		}
+		if a[0].K == VIface {
+			x.declIfaceFns()
+			r = app("payl", SInt, a[0].T)
+			if a[0].Payload != nil && a[0].Payload.K == VScalar && a[0].Payload.T.Sort == SInt {
+				r = a[0].Payload.T
+			}
+		}
+		return boolV(Gt(r, st.LoopWM)), nil
+	case "fromReader":
+		// fromReader(b): the bytes were produced by a complete Read of an io.Reader (the random reader)
+		x.ufun("fromReader", []string{SStr}, SBool)
+		return boolV(app("fromReader", SBool, x.bytesOf(st, a[0]))), nil
 	case "hsComplete":
 		x.Reg.DeclareFun("hsComplete", []string{SInt}, SBool)
 		return boolV(app("hsComplete", SBool, a[0].T)), nil
